@@ -2,6 +2,7 @@
 import collections
 
 from . import mirfmt
+from .effects import norm
 
 GUARD_DEFS = {
     "parking_lot::lock_api::MutexGuard": "mutex",
@@ -20,6 +21,19 @@ GUARD_DEFS = {
 }
 
 FN_TRAIT_CALLS = {"std::ops::FnOnce::call_once", "std::ops::FnMut::call_mut", "std::ops::Fn::call"}
+GUARD_DEFS = dict((norm(k), v) for k, v in GUARD_DEFS.items())
+
+
+def term_path(term):
+    """Normalized callee path of a call terminator."""
+    c = term.get("callee")
+    if c is None or c.get("indirect"):
+        return None
+    p = c.get("_np")
+    if p is None:
+        p = norm(c.get("path"))
+        c["_np"] = p
+    return p
 
 
 class Site(object):
@@ -53,17 +67,31 @@ class Site(object):
 
     @property
     def path(self):
+        """Callee path as written at the call (before trait resolution), generics stripped."""
         c = self.term.get("callee")
         if c is None:
             return None
-        return c.get("path")
+        p = c.get("_np")
+        if p is None:
+            p = norm(c.get("path"))
+            c["_np"] = p
+        return p
+
+    @property
+    def raw_path(self):
+        c = self.term.get("callee")
+        return c.get("path") if c else None
 
     @property
     def resolved(self):
         c = self.term.get("callee")
         if c is None:
             return None
-        return c.get("resolved") or c.get("path")
+        p = c.get("_nr")
+        if p is None:
+            p = norm(c.get("resolved") or c.get("path"))
+            c["_nr"] = p
+        return p
 
     def key(self):
         return (self.body.path, self.bb)
@@ -355,7 +383,7 @@ class Program(object):
         for b in self.bodies.values():
             for site in b.calls():
                 c = site.callee
-                if c and c.get("path") in FN_TRAIT_CALLS:
+                if c and not c.get("indirect") and term_path(site.term) in FN_TRAIT_CALLS:
                     ga = [g for g in c.get("gargs", []) if isinstance(g, int)]
                     if ga and self.types[self.strip_refs(ga[0])].get("k") == "param":
                         fn_param_names.add(self.types[self.strip_refs(ga[0])]["name"])
@@ -422,7 +450,7 @@ class Program(object):
         if tgt is not None:
             out.append((tgt, "direct"))
             return out
-        path = c.get("path")
+        path = site.path
         if path in FN_TRAIT_CALLS:
             rk = c.get("rk")
             if rk == "virtual":
@@ -472,18 +500,19 @@ class Program(object):
 
     # ---- drops ----
     def drop_targets(self, ty_ix, _seen=None):
-        """What runs when a value of this type is dropped: list of ('local', Body) for local Drop
-        impls and ('extern', def path, ty_ix) for extern types with drop effects, recursively
-        through owned fields / type arguments."""
+        """What runs when a value of this type is dropped: ('local', Body, ty, owner) for local Drop
+        impls and ('extern', def path, ty, owner) for extern types, recursively through owned
+        fields / type arguments. owner = ("F", adt, field) of the innermost crate-local field that
+        holds the value (None when it is the dropped place itself)."""
         if _seen is None:
             _seen = set()
         out = []
-        work = [ty_ix]
+        work = [(ty_ix, None)]
         while work:
-            i = work.pop()
-            if i in _seen:
+            i, owner = work.pop()
+            if (i, owner) in _seen:
                 continue
-            _seen.add(i)
+            _seen.add((i, owner))
             t = self.types[i]
             k = t.get("k")
             if k in ("ref", "ptr", "prim", "str", "never", "param", "fndef", "fnptr"):
@@ -494,22 +523,22 @@ class Program(object):
                     if a.get("drop_fn"):
                         b = self.bodies.get(a["drop_fn"])
                         if b is not None:
-                            out.append(("local", b, i))
+                            out.append(("local", b, i, owner))
                     for v in a["variants"]:
                         for f in v["fields"]:
-                            work.append(f["ty"])
-                    work.extend(x for x in t["args"] if isinstance(x, int))
+                            work.append((f["ty"], ("F", t["def"], f["name"])))
+                    # generic args are reached through the fields that use them
                 else:
-                    out.append(("extern", t["def"], i))
-                    work.extend(x for x in t["args"] if isinstance(x, int))
+                    out.append(("extern", norm(t["def"]), i, owner))
+                    work.extend((x, owner) for x in t["args"] if isinstance(x, int))
             elif k in ("array", "slice"):
-                work.append(t["in"])
+                work.append((t["in"], owner))
             elif k == "tuple":
-                work.extend(t["args"])
+                work.extend((x, owner) for x in t["args"])
             elif k == "closure":
-                work.extend(t.get("upvars", []))
+                work.extend((x, owner) for x in t.get("upvars", []))
             elif k == "dyn":
-                out.append(("extern", "dyn " + t.get("def", "?"), i))
+                out.append(("extern", "dyn " + t.get("def", "?"), i, owner))
         return out
 
     # ---- reachability over the call graph ----
